@@ -88,6 +88,9 @@ def run(repo, rep, tier):
             src_ok = False
         ok = lfold and rfold and lbase == ckey and src_ok
         detail = "" if ok else f"left folded={lfold}, right folded={rfold}: names equal ignoring case must collide"
+        if not ok and isinstance(comp, ast.Attribute) and U(comp.value) == "self":
+            detail = (f"membership is answered from the memo `{U(comp)}` instead of the items' current names: a rename through the name setter "
+                      "does not refresh it, so a later add accepts a duplicate (or generates a name that is already taken)")
     rep.ob("C19.R2", contains, "membership compares case-folded names", ok, detail, key="C19.R2@contains:fold")
     # any() form twin
     if not cmp_nodes:
